@@ -497,32 +497,7 @@ def estimator_table(rep):
         raise AnalysisError(f"est_functions: only {n} entries")
 
 
-def _local_value(st, name, fn):
-    """What `name` holds at statement `st`: the value of the closest preceding unconditional
-    assignment in the enclosing blocks (ast node), ('loop', For) when it is the target of an
-    enclosing loop, None when a conditional or repeated binding intervenes."""
-    cur = st
-    while cur is not None and cur is not fn:
-        par = getattr(cur, "_parent", None)
-        if par is None:
-            return None
-        for field in ("body", "orelse", "finalbody"):
-            blk = getattr(par, field, None)
-            if isinstance(blk, list) and any(x is cur for x in blk):
-                k = [i for i, x in enumerate(blk) if x is cur][0]
-                for prev in reversed(blk[:k]):
-                    if isinstance(prev, ast.Assign) and len(prev.targets) == 1 \
-                            and isinstance(prev.targets[0], ast.Name) \
-                            and prev.targets[0].id == name:
-                        return prev.value
-                    if any(isinstance(n, ast.Name) and n.id == name
-                           and isinstance(n.ctx, (ast.Store, ast.Del)) for n in ast.walk(prev)):
-                        return None
-        if isinstance(par, ast.For) and any(
-                isinstance(n, ast.Name) and n.id == name for n in ast.walk(par.target)):
-            return ("loop", par)
-        cur = par
-    return None
+from ..reading_rules import local_value as _local_value  # noqa: E402
 
 
 def estimate_columns(rep):
@@ -530,11 +505,17 @@ def estimate_columns(rep):
     fn = S.function(TIME, "process_single_timestep")
     n = 0
     for st in ast.walk(fn):
-        if isinstance(st, ast.Assign) and isinstance(st.targets[0], ast.Subscript) \
-                and unparse(st.targets[0].value) == "data" \
-                and isinstance(st.targets[0].slice, ast.BinOp):
+        if not (isinstance(st, ast.Assign) and isinstance(st.targets[0], ast.Subscript)
+                and unparse(st.targets[0].value) == "data"):
+            continue
+        sl0 = st.targets[0].slice
+        if isinstance(sl0, ast.Name):
+            # the column name computed once and used for the test and for the store
+            v_ = _local_value(st, sl0.id, fn)
+            sl0 = v_ if isinstance(v_, ast.AST) else sl0
+        if isinstance(sl0, ast.BinOp):
             n += 1
-            sl = st.targets[0].slice
+            sl = sl0
             parts = []
             x = sl
             while isinstance(x, ast.BinOp) and isinstance(x.op, ast.Add):
@@ -591,7 +572,8 @@ def estimate_columns(rep):
             # guarded by "not already present"
             par = getattr(st, "_parent", None)
             guarded = isinstance(par, ast.If) and "not in" in unparse(par.test) \
-                and unparse(sl) in unparse(par.test)
+                and (unparse(sl) in unparse(par.test)
+                     or unparse(st.targets[0].slice) in unparse(par.test))
             rep.check(ok and guarded, "estimate-columns",
                       f"{TIME}::process_single_timestep::{norm_src(st.targets[0])[:40]}",
                       why if not ok else "estimate recomputed although already present",
